@@ -943,6 +943,56 @@ def explore(ctx, m, tags, e, ename, info, pending, deep=True):
         except Exception as ex:
             case.viol("view union raised " + exc_kind(ex), {"what": "raise-union"}, err=repr(ex))
 
+    # ---- a tag name defined AGAIN (with_boundaries / with_subdomains on a mesh that already has the name):
+    # the name designates the new set, in every selector form
+    if bnames and rng.random() < 0.5:
+        try:
+            bn = rng.choice(bnames)
+            oldS = sorted(int(f) for f in tags["boundaries"][bn][0])
+            newS = sorted(rand_subset(rng, range(nfac), allow_empty=False))
+            if newS != oldS:
+                how = rng.choice(["array", "predicate"])
+                keys = keyset(T.fmid[:, newS])
+                if how == "predicate" and \
+                        [f for f in range(nfac) if tuple(float(x) for x in T.fmid[:, f]) in keys] == newS:
+                    m2 = m.with_boundaries({bn: member_pred(keys)}, boundaries_only=False)
+                else:
+                    how = "array"
+                    m2 = m.with_boundaries({bn: np.array(newS, dtype=np.int64)})
+                reset_caches(e)
+                b2 = Basis(m2, e, intorder=3)
+                want2 = T.facet_dofs(newS)
+                ctx.count("retagged-boundary:" + how)
+                for form, sel in (("tag", bn), ("set-of-names", {bn}), ("list", [bn])):
+                    got2 = set(aslist(b2.get_dofs(sel).flatten()))
+                    if got2 != want2:
+                        case.viol("a boundary name defined again does not designate the new facet set",
+                                  {"what": "retag", "kind": "facets", "form": form}, name=bn, old=oldS, new=newS,
+                                  how=how, missing=sorted(want2 - got2)[:20], spurious=sorted(got2 - want2)[:20])
+                        break
+                reset_caches(e)
+        except Exception as ex:
+            case.viol("re-tagging raised " + exc_kind(ex), {"what": "raise-retag"}, err=repr(ex))
+    if snames and rng.random() < 0.5:
+        try:
+            sn = rng.choice(snames)
+            oldC = sorted(int(k) for k in tags["subdomains"][sn])
+            newC = sorted(rand_subset(rng, range(nt), allow_empty=False))
+            if newC != oldC:
+                m2 = m.with_subdomains({sn: np.array(newC, dtype=np.int64)})
+                reset_caches(e)
+                b2 = Basis(m2, e, intorder=3)
+                want2 = T.element_dofs(newC)
+                got2 = set(aslist(b2.get_dofs(elements=sn).flatten()))
+                ctx.count("retagged-subdomain")
+                if got2 != want2:
+                    case.viol("a subdomain name defined again does not designate the new cell set",
+                              {"what": "retag", "kind": "elements"}, name=sn, old=oldC, new=newC,
+                              missing=sorted(want2 - got2)[:20], spurious=sorted(got2 - want2)[:20])
+                reset_caches(e)
+        except Exception as ex:
+            case.viol("re-tagging raised " + exc_kind(ex), {"what": "raise-retag"}, err=repr(ex))
+
     # ------------------------------------------------------------------ cells
     csets = [("subset", rand_subset(rng, range(nt))) for _ in range(2 if deep else 1)]
     for sn in snames:
